@@ -210,7 +210,7 @@ func randLicense(r *rand.Rand) string {
 }
 
 func Run(c *core.Ctx) error {
-	c.Rule = "one case = one pack of one of the eight named types (tag-count, log-sink, text, parameter, event, zip, hit-map, counter) written by the real writer (pack.ToBytesPack, twice) or sent through a real OneWayTcpClient to a loopback peer; non-trivial: every case (each has a header and a body); distinct by (type, header form, encoded length[, license length, queued])"
+	c.Rule = "one case = one pack of one of the eight named types (tag-count, log-sink, text, parameter, event, zip, hit-map, counter) written by the real writer (pack.ToBytesPack, twice) or sent through a real OneWayTcpClient to a loopback peer, or one history of a pack object (built, changed through public mutators / exported fields, written 2..8 times); non-trivial: every case (each has a header and a body); distinct by (type, header form, encoded length[, license length, queued]) resp. (type, set of calls made)"
 	t := c.Trace("c05_wire", "Trace_PackWire")
 
 	// gen "enum" (B): the small world, exhaustively
@@ -237,6 +237,9 @@ func Run(c *core.Ctx) error {
 					t.Reset("rand", cas, core.Ev{"kind": kind})
 					s := randShape(r, kind, false)
 					enc(c, t, s)
+					if i == 0 {
+						enc(c, t, s) // a second, independently built object of the same shape
+					}
 					if i == 0 && (kind == "tagcount" || kind == "counter") {
 						c.Sample(map[string]interface{}{"gen": "rand", "case": cas, "kind": kind, "header_long": s.Hdr.long()})
 					}
@@ -246,16 +249,37 @@ func Run(c *core.Ctx) error {
 		}
 	}
 
-	// gen "retag": the tags of a pack change after it was written once
+	// The pack OBJECT between writes (Trace_PackObj): built, changed through its
+	// public mutators / exported fields, written again -- every write judged
+	// against the content the specification derived for that moment.
+	ot := c.Trace("c05_obj", "Trace_PackObj")
+
+	// gen "hashenum": the cached tag hash of log-sink / tag-count packs, systematically
+	if c.WantGen("hashenum") {
+		c.SetExtra("enumerated_hash_histories", hashEnum(c, ot))
+	}
+
+	// gen "retag": the tag hash under random call sequences
 	if c.WantGen("retag") {
-		n := c.Pick(20, 300)
+		n := c.Pick(40, 600)
 		for cas := 0; cas < n; cas++ {
-			if !c.Want("retag", cas) {
-				continue
+			if c.Want("retag", cas) {
+				retagCase(c, ot, cas)
 			}
-			r := c.Rng("retag", cas)
-			t.Reset("retag", cas, nil)
-			retag(c, t, r, cas)
+		}
+	}
+
+	// gen "mut": random call sequences over every public mutator of the eight pack types
+	if c.WantGen("mut") {
+		n := c.Pick(25, 400)
+		cas := 0
+		for _, kind := range kinds {
+			for i := 0; i < n; i++ {
+				if c.Want("mut", cas) {
+					mutCase(c, ot, kind, cas)
+				}
+				cas++
+			}
 		}
 	}
 
@@ -272,54 +296,4 @@ func Run(c *core.Ctx) error {
 		}
 	}
 	return nil
-}
-
-// retag: tag-count: PutTag after a first write; log-sink: TransferOidToTag
-// after a first write (it resets the public hash when it adds a tag).
-func retag(c *core.Ctx, t *core.Trace, r *rand.Rand, cas int) {
-	if cas%2 == 0 {
-		s := randShape(r, "tagcount", false)
-		s.Tags, s.TagsViaPut = tagMap(r, 1+r.Intn(4)), true
-		p, proj := realize(s)
-		x := p.(*pack.TagCountPack)
-		encPack(c, t, s, p, proj)
-		// change one tag or add one
-		if r.Intn(2) == 0 {
-			k := string(s.Tags.Keys[r.Intn(len(s.Tags.Keys))])
-			v := rtext(r, 40) + "'"
-			x.PutTag(k, v)
-			for i := range s.Tags.Keys {
-				if string(s.Tags.Keys[i]) == k {
-					s.Tags.Items[i] = valgen.Text([]byte(v))
-				}
-			}
-		} else {
-			k, v := fmt.Sprintf("added%d", cas), rtext(r, 40)
-			x.PutTag(k, v)
-			s.Tags.Put([]byte(k), valgen.Text([]byte(v)))
-		}
-		proj["tags"] = valgen.Proj(s.Tags)
-		proj["tagHash"] = core.W8(x.GetTagHash())
-		encPack(c, t, s, p, proj)
-		return
-	}
-	s := randShape(r, "logsink", false)
-	s.Tags, s.TagHash = tagMap(r, 1+r.Intn(3)), 0
-	s.Hdr.Oid, s.Hdr.Okind, s.Hdr.Onode = nz32(r), []int32{0, nz32(r)}[r.Intn(2)], []int32{0, nz32(r)}[r.Intn(2)]
-	p, proj := realize(s)
-	x := p.(*pack.LogSinkPack)
-	encPack(c, t, s, p, proj)
-	x.TransferOidToTag()
-	// what the call is documented to do: oid / okind / onode become decimal tags when non-zero and not yet present
-	for _, kv := range []struct {
-		k string
-		v int32
-	}{{"oid", s.Hdr.Oid}, {"okind", s.Hdr.Okind}, {"onode", s.Hdr.Onode}} {
-		if kv.v != 0 {
-			s.Tags.Put([]byte(kv.k), valgen.Decimal(int64(kv.v)))
-		}
-	}
-	proj["tags"] = valgen.Proj(s.Tags)
-	proj["tagHash"] = core.W8(x.TagHash) // the public field as the call left it
-	encPack(c, t, s, p, proj)
 }
